@@ -78,6 +78,25 @@ def monitor_ext(case, rec):
     return viol
 
 
+def monitor_poison(case, rec):
+    """torn-entry cases: a task that is cached (however badly) is loaded, not executed"""
+    viol = []
+    ev = rec['events']
+    executed = {int(l.split(' ')[1]) for l in rec['execs'] if l.startswith('X ')}
+    for w in case['poison']:
+        w = int(w)
+        sw = next((e for e in ev if e[0] == 'S' and e[1] == w), None)
+        if sw is None:
+            continue
+        yw = next((e for e in ev if e[0] == 'Y' and e[1] == w), None)
+        if sw[2] != 1 or w in executed:
+            viol.append(f'task {w} has a (torn) cache entry, yet it was submitted with use_cache={sw[2]} and '
+                        f'{"executed" if w in executed else "not executed"} in the same call: loaded AND executed')
+        elif yw is not None and yw[2].startswith('ok'):
+            viol.append(f'task {w} has a torn cache entry but reported {yw[2]}')
+    return viol
+
+
 def ref_plain(case):
     """plain sequential dependency-first evaluation with nothing cached"""
     n = len(case['ty'])
@@ -99,6 +118,11 @@ def monitor(case, rec):
     returned = None
     if rec['returned'] is not None:
         returned = [(t.k, 999999 if v is None else v) for t, v in rec['returned'].items()]
+
+    # ---- the cache as left behind must be loadable
+    for err in rec.get('store_errors', []):
+        for pid in ('C01', 'C10'):
+            viol[pid].append(f'after the call the Lab reports task {err.split(":")[0]} as cached but its entry does not load ({err})')
 
     # ---- C11 termination
     if status.startswith('HANG'):
